@@ -915,6 +915,9 @@ def work(args: Tuple[str, List[Dict[str, Any]], Dict[str, Any]]) -> Dict[str, An
 def run_documents(ctx: Ctx, recs: List[Dict[str, Any]], templates: Dict[str, Any], formats: Sequence[str],
                   batch: int = 250) -> List[Dict[str, Any]]:
     import multiprocessing as mp
+    # import the implementation once, in the parent: the forked workers inherit it instead of importing it 16 times per pool
+    from pydoctor import epydoc2stan, model, stanutils                                   # noqa: F401
+    from pydoctor.epydoc.markup import epytext, restructuredtext, google, numpy, plaintext  # noqa: F401
     tasks = [(fmt, list(ch), templates) for fmt in formats for ch in chunks(recs, batch)]
     nproc = max(1, min(os.cpu_count() or 4, 16, len(tasks)))
     with mp.get_context("fork").Pool(nproc) as pool:
@@ -1079,7 +1082,7 @@ def plan(ctx: Ctx) -> List[Dict[str, Any]]:
             dict(name="structure<=3", actions=3, depth=3, fields=2, kinds=rep, blocks=ALL_BLOCKS, free=False, sample=None),
             dict(name="fields", actions=2, depth=1, fields=2, kinds=ALL_KINDS, blocks=["para"], free=False, sample=None),
             dict(name="structure=4", actions=4, depth=3, fields=1, kinds=["param", "note"], blocks=ALL_BLOCKS, free=False,
-                 sample=700),
+                 sample=500),
             dict(name="styles-free<=2", actions=2, depth=1, fields=2, kinds=["param", "returns", "note"], blocks=["para"], free=True,
                  sample=1200),
             dict(name="history-fault<=3", actions=3, depth=1, fields=2, kinds=["param", "return", "note", "ivar"],
@@ -1103,6 +1106,11 @@ def plan(ctx: Ctx) -> List[Dict[str, Any]]:
              sample=25000),
         dict(name="nesting<=6", actions=6, depth=3, fields=0, kinds=[], blocks=["para", "list", "lit", "doctest"], free=False,
              sample=20000),
+        dict(name="history-fault<=4", actions=4, depth=2, fields=2, kinds=["param", "return", "note", "ivar", "raises"],
+             blocks=["para", "list", "lit", "doctest", "poison"], free=False, sample=20000, hows=["assigned", "inherited", "direct"],
+             need="history-or-fault"),
+        dict(name="version-directive<=4", actions=4, depth=2, fields=1, kinds=["param", "note"], blocks=["para", "list", "lit", "version"],
+             free=False, sample=15000, formats=["restructuredtext", "google", "numpy", "plaintext"], need="version"),
         dict(name="numpy-see-also<=4", actions=5, depth=1, fields=4, kinds=["seealso", "param"], blocks=["para"],
              free=False, sample=None, forms=["plain", "nsee"], formats=["numpy"], need_form="nsee"),
         dict(name="rst-consolidated<=4", actions=4, depth=2, fields=2, kinds=CONS_KINDS + ["note"], blocks=["para", "list", "lit", "doctest", "code"],
